@@ -369,6 +369,8 @@ int main(int argc, char** argv)
         // writers contending for the writer mutex; cancel under contention; throw under contention
         parse("-;L,w,U,L,w,C,L,w,U;L,w,V,U,L!,L,w,U;S,r,S,r,r,D,S,r"),
         parse("-;L,w,C;L,w,U;L!,L,w,U;S,r,r,S,r"),
+        // cancel frees the writer mutex at once: another writer locks while the cancelled (null) handle still exists
+        parse("-;L,w,C,W:f1,U;L,w,U,P1"),
         // real time: a lock_shared called after a release returned
         parse("-;L,w,U,S,r,L,w,U,S,r;S,r,S,r,r"),
         // several readers keeping snapshots across several commits
